@@ -308,4 +308,10 @@ theorem tupleLoop_exact (ev : Nat → Id → Except Exc Id) (value : List Id) (i
             List.count_nil]
           by_cases ha : a = id <;> simp [ha] <;> omega
 
+/-! ### Dispatch -/
+
+theorem dispatchLoop_calls (act : Id → HAct) : ∀ (snap : List Id) (l : Lists), (dispatchLoop act snap l).1 = snap
+  | [], _ => rfl
+  | h :: rest, l => by simp [dispatchLoop, dispatchLoop_calls act rest]
+
 end TraitsVerif.Lemmas.Ledger
